@@ -25,7 +25,7 @@ CLAIMED = {
     "C11": dict(text="queue_event queues iff the filter is None or the event is an instance of a filter class; get_event_mask_from_filter: loop invariant + postcondition 'needs(class, bit, recursive) => bit in mask' for all 13 classes x 10 kernel bits, with `needs` computed from the statement's translation table (not from the function); default mask and ABI constants as lemmas.",
                 note="The translation table is C03's proved postcondition; E8 (the kernel reports a record only if its bit is requested). Over-approximate masks are allowed. The unchanged tree violated 33 (class<-bit) obligations: repaired by a fix: commit.", ref="4/C11"),
     "C03": dict(text="InotifyEmitter.queue_events: for every native record (each of the 15 event bits x IN_ISDIR, or a rename pair) x recursive x full-emitter x root-or-not, the exact sequence of queued events equals the statement's translation table (class, paths, parent events, synthetic sub-events forwarded once and in order, stop iff root deleted); is_synthetic is False on every directly built event.",
-                note="PARTIAL: 'explained by the operation history' is not decided (needs the kernel). E8 (one event bit per record), C14's contract for the generators, dirname/fsdecode uninterpreted with E2/E3 axioms. Known limitation: stale watch of a moved-out directory (phantom events) - see DESIGN.md.", ref="4/C03"),
+                note="PARTIAL: 'explained by the operation history' is not decided (needs the kernel). E8 (one event bit per record), C14's contract for the generators, dirname/fsdecode uninterpreted with E2/E3 axioms. Known finding (recorded): phantom events after a watched directory is moved out of the tree.", ref="4/C03"),
     "C19": dict(text="Ghost type tag on every path: ObservedWatch.__init__ (Path -> str), on_thread_start (kernel side gets fsencode(watch.path)), _decode_path (type of the watch path, fsencode(result) = native), and for every row of the translation table every non-empty event path has the watch path's type and fsencode of each directly built path is the native path / its dirname; watch identity keeps the path type (key/__eq__). Polling side: walk/queue_events contracts of C10.",
                 note="E3 fsencode(fsdecode(b)) = b, E2 dirname commutes with decoding, C14/E1 for synthetic events. That the native path is root joined with the real relative name is C02's bookkeeping.", ref="4/C19"),
     "C10": dict(text="PollingEmitter.queue_events: nothing when stopped; otherwise exactly one event per entry of the eight diff lists, of the right class, at its place in the deleted/modified/created/moved, files-then-directories order (8 loop invariants with segment offsets), the new snapshot becomes the baseline; snapshot OSError => one DirDeletedEvent(root) + stop, baseline kept; on_thread_start baseline. DirectorySnapshot.walk: yields exactly (join(root,name), stat) of the entries whose stat succeeded, in listing order, tolerated listing errors contribute nothing, each yielded directory walked exactly once iff recursive (failures forked at every stat/listdir call); __init__: wf0 and exact path set.",
@@ -33,7 +33,7 @@ CLAIMED = {
     "C20": dict(text="PARTIAL. Both binary decoders proved by loop invariant for every record count, name length and padding (Inotify._parse_event_buffer incl. the rstrip of the NUL padding; winapi._parse_event_buffer over NextEntryOffset/FileNameLength); WindowsApiEmitter.queue_events: per-record region contract = the action table; FSEventsEmitter.queue_event/_is_recursive_event: a non-recursive watch queues nothing below the root's direct children.",
                 note="FSEventsEmitter.queue_events (flag-coalescing table) is not applicable - relative to Apple's semantics. E4 (struct/ctypes reads), E8 (record layouts), offsets monotone by assumed induction. Two known findings on Windows (removed directory typed as file; rename halves split across reads) are listed in known_findings.json. 'Replaying reproduces the tree' is not decided.", ref="4/C20"),
     "C18": dict(text="PARTIAL. EventDebouncer under its Condition (rely/guarantee, ghost handled/delivered): while not stopped _events = handled[delivered:]; the callback runs only in a lock hold where should_keep_running() held, with exactly the pending batch in arrival order, nothing twice, nothing after stop(); untimed wait guarded by its predicate; handle_event/stop notify. ProcessWatcher.run: callback at most once, only after the child exited, only if not stopped, only timed waits. AutoRestartTrick._stop_process/_start_process/_restart_process/stop: sequential contracts over a ghost process table.",
-                note="E7, E11 (process table). NOT decided: 'never more than one child alive' across the watcher and event threads (process/process_watcher are not lock-protected), debounce timing beyond 'delivered after a timed wait expired', thread exit on stop() (liveness), ShellCommandTrick (battery only).", ref="4/C18"),
+                note="E7, E11 (process table). NOT decided: 'never more than one child alive' across the watcher and event threads (process/process_watcher are not lock-protected), debounce timing beyond 'delivered after a timed wait expired', thread exit on stop() (liveness). ShellCommandTrick.on_any_event has a sequential contract only.", ref="4/C18"),
     "C12": dict(text="PARTIAL (typestate). Ghost per-descriptor open flags: os.read/os.write/os.close/poll/inotify_rm_watch require 'open'; lock invariant J of Inotify (not released => all three open; released => _closed; a read in flight is never released under its feet) proved at every release of close()/read_events(); close() releases only if no read is in flight and is idempotent; the reader releases in its second section iff closed meanwhile; Inotify.__init__ closes everything it opened when watch installation raises; InotifyBuffer starts no thread for a failed watch, close() = flag, wake-ups, join; emitter stop idempotent.",
                 note="E7/E8 (poll/os.read on open descriptors do not raise; os.pipe failure not injected). Rely of the reader = close()'s proved guarantee. Descriptor/thread counts over real cycles are measured only by the bounded battery. inotify_add_watch after a concurrent close() (third section of read_events) is outside the statement's list and only recorded.", ref="4/C12"),
     "C08": dict(text="InotifyBuffer._group_events: region contract per batch event (append single / upgrade the first matching single MOVED_FROM in place / append pair with the first match pulled from the delay queue / single when nothing matches; every other position untouched; delay queue consulted at most once) and all pairs (moved_from, moved_to, one cookie); InotifyBuffer.run: every item except a single IN_IGNORED put exactly once in order, delayed iff unmatched MOVED_FROM, loop ends exactly on root IGNORED/DELETE_SELF; composed with the re-verified DelayedQueue put/get/remove contracts (C17).",
